@@ -71,6 +71,9 @@ structure EncField where
   bytes : Bytes
 deriving Repr
 
+/-- UTF-8 bytes of a field name (kernel-reducible, unlike `String.toUTF8`) -/
+def nameBytes (s : String) : Bytes := s.toList.flatMap String.utf8EncodeChar
+
 /-- `AdtSerializer::new`: names of the header steps that are written in the removed form are
 serialized (as deduplicated strings) before the fields. One entry per step incl. `InitialVersion`. -/
 def preNames (steps : List Step) (removed : List String) (st : EncSt) :
@@ -86,7 +89,7 @@ def preNames (steps : List Step) (removed : List String) (st : EncSt) :
     match name? with
     | none => (preNames rest removed st).bind fun (l, st') => .ok (none :: l, st')
     | some n =>
-      (encDString n.toUTF8.toList st).bind fun (b, st1) =>
+      (encDString (nameBytes n) st).bind fun (b, st1) =>
       (preNames rest removed st1).bind fun (l, st') => .ok (some b :: l, st')
 
 /-- bytes of chunk `k`: concatenation, in write order, of the fields whose generation is `k` -/
